@@ -1909,7 +1909,7 @@ class UTPM(Ring, RawAlgorithmsMixIn):
 
 
         shp = numpy.shape(x)
-        data = numpy.zeros(numpy.hstack( [2, 1, shp]), dtype=dtype)
+        data = numpy.zeros((2, 1) + tuple(shp), dtype=dtype)
         data[0,0] = x
         data[1,0] = v
         return cls(data)
